@@ -27,10 +27,10 @@ TARGETS = ['valjean.gavroche.diagnostics.stats:TestStatsTasks.evaluate',
 BOUNDS = {
     'quick': {'tasks': '<= 3 task environments, any of the 5 statuses, names from a pool of 2 (repeats allowed)',
               'tests': '<= 3 tasks, each without result or with 1-2 results; symbolic verdicts; names from a pool of 2',
-              'by_labels': "<= 3 results over label keys {k0,k1} (+ a job with the reserved keys '_result'/'_test_name' as user labels), "
+              'by_labels': "<= 3 results over label keys {k0,k1} (+ a job with the reserved keys '_result'/'_test_name' as user labels; + three-level selections over {k0,k1,k2} with 2-3 results), "
                            'symbolic presence, arbitrary label values (symbolic equality/order), every ordered non-empty selection'},
     'thorough': {'tasks': '<= 4 task environments', 'tests': '<= 3 tasks with 0-2 results each, <= 4 tasks with 0-1',
-                 'by_labels': '<= 4 results over {k0,k1}; <= 3 over {k0,k1,_result}'},
+                 'by_labels': '<= 4 results over {k0,k1}; <= 3 over {k0,k1,_result}; three-level selections over {k0,k1,k2} with <= 3 results'},
 }
 ASSUMPTIONS = ['test verdicts are symbolic booleans behind a stub TestResult; label values are SKey proxies (constant hash, symbolic == and <)',
                'results that are not TestResult instances are outside (the statement quantifies over results with verdicts)',
@@ -141,9 +141,11 @@ def make_tests(n, maxres):
     return harness
 
 
-def make_bylabels(n, keys, sel=None):
+def make_bylabels(n, keys, sel=None, by3=None):
     import itertools
     selections = [s for r in (1, 2) for s in itertools.permutations(['k0', 'k1'], r)]
+    if by3 is not None:           # three-level selections: a fixed ordered selection, every result but the last carries every label
+        selections, sel = [tuple(by3)], 0
 
     def harness(ex):
         from valjean.gavroche.diagnostics.stats import (TestStatsTestsByLabels, TestStatsTestsByLabelsException)
@@ -154,7 +156,7 @@ def make_bylabels(n, keys, sel=None):
         for i in range(n):
             labels = {}
             for k in keys:
-                if ex.flag(f'r{i}has{k}'):
+                if (by3 is not None and i < n - 1) or ex.flag(f'r{i}has{k}'):
                     labels[k] = ex.key(f'r{i}{k}')
             nm = ['a', 'a', 'b', 'b'][i]        # repeated test names are part of the bound
             v = ex.bool(f'verdict{i}')
@@ -215,7 +217,7 @@ def make_bylabels(n, keys, sel=None):
 
 def _job(kind, timeout_ms, seed=0, **p):
     h = make_tasks(p['n']) if kind == 'tasks' else make_tests(p['n'], p['maxres']) if kind == 'tests' \
-        else make_bylabels(p['n'], p['keys'], p.get('sel'))
+        else make_bylabels(p['n'], p['keys'], p.get('sel'), p.get('by3'))
     return run_sym('x', h, timeout_ms=timeout_ms, seed=seed, max_paths=2000000)
 
 
@@ -244,16 +246,22 @@ def jobs(tier):
                 ('tests', dict(n=3, maxres=1)),
                 ('bylabels', dict(n=1, keys=('k0', 'k1'))), ('bylabels', dict(n=2, keys=('k0', 'k1'))),
                 ('bylabels', dict(n=3, keys=('k0', 'k1'))), ('bylabels', dict(n=2, keys=('k0', 'k1', '_result'))),
-                ('bylabels', dict(n=2, keys=('k0', 'k1', '_test_name')))]
+                ('bylabels', dict(n=2, keys=('k0', 'k1', '_test_name'))),
+                ('bylabels', dict(n=2, keys=('k0', 'k1', 'k2'), by3=('k0', 'k1', 'k2'))),
+                ('bylabels', dict(n=3, keys=('k0', 'k1', 'k2'), by3=('k2', 'k0', 'k1')))]
     else:
         plan = [('tasks', dict(n=i)) for i in range(5)] + \
                [('tests', dict(n=0, maxres=2)), ('tests', dict(n=1, maxres=2)), ('tests', dict(n=2, maxres=2)),
                 ('tests', dict(n=3, maxres=2)), ('tests', dict(n=4, maxres=1))] + \
                [('bylabels', dict(n=i, keys=('k0', 'k1'))) for i in (1, 2, 3, 4)] + \
-               [('bylabels', dict(n=3, keys=('k0', 'k1', '_result'))), ('bylabels', dict(n=3, keys=('k0', 'k1', '_test_name')))]
+               [('bylabels', dict(n=3, keys=('k0', 'k1', '_result'))), ('bylabels', dict(n=3, keys=('k0', 'k1', '_test_name'))),
+                ('bylabels', dict(n=2, keys=('k0', 'k1', 'k2'), by3=('k0', 'k1', 'k2'))),
+                ('bylabels', dict(n=3, keys=('k0', 'k1', 'k2'), by3=('k2', 'k0', 'k1'))),
+                ('bylabels', dict(n=3, keys=('k0', 'k1', 'k2'), by3=('k0', 'k1', 'k2'))),
+                ('bylabels', dict(n=3, keys=('k0', 'k1', 'k2'), by3=('k1', 'k2', 'k0')))]
     for kind, p in plan:
         name = kind + '-' + '-'.join(f'{k}{"+".join(v) if isinstance(v, tuple) else v}' for k, v in p.items())
-        if kind == 'bylabels' and p['n'] >= 2:
+        if kind == 'bylabels' and p['n'] >= 2 and 'by3' not in p:
             for sel in range(4):            # one job per ordered label selection (parallelism)
                 out.append((f'{name}-sel{sel}', _job, dict(kind=kind, timeout_ms=t, sel=sel, **p)))
         else:
@@ -267,6 +275,6 @@ def replay(rp):
             p = dict(j[2])
             kind = p.pop('kind')
             h = make_tasks(p['n']) if kind == 'tasks' else make_tests(p['n'], p['maxres']) if kind == 'tests' \
-                else make_bylabels(p['n'], p['keys'], p.get('sel'))
+                else make_bylabels(p['n'], p['keys'], p.get('sel'), p.get('by3'))
             return replay_sym(h, rp['inputs'])
     raise KeyError(rp['job'])
